@@ -1079,63 +1079,53 @@ def svc_full_stack():
     return [_client_run(c, [gw, sc, rl, lb, *servers], per=3, end=30.0), _st(gw), _st(sc), _st(lb)]
 
 
-SCENARIOS = {k: v for k, v in list(globals().items()) if k.startswith("svc_") and callable(v)}
-
-
-# --------------------------------------------------------------------------- probes (NOT in corpus)
-# Positive periods below the clock resolution (5e-10 s) pass every `> 0` validation, truncate to a
-# zero Duration and make each self-rescheduling component loop at one instant.  Kept runnable for the
-# report via run_probes() (they only terminate under the recorder's spin guard), deliberately not
-# registered in SCENARIOS: the C07 key of a spin is per class ("frozen_clock:CanaryDeployer"), so registering these
-# as known findings would blind the check to real frozen-clock regressions in the same classes.
+# ------------------------------------------------------------------- sub-nanosecond periods
+# A positive period below the clock resolution (5e-10 s) passes every `> 0` validation and truncates
+# to a zero Duration.  All activity of these scenarios lies within a few microseconds, so a component
+# that keeps moving forward in 1 ns ticks finishes after a few thousand deliveries.
 SUBNS = 5e-10
+US = 1e-6
 
 
-def probe_subns_health_checker():
+def svc_subns_health_checker():
+    _seed(77)
     from happysimulator.components.load_balancer import HealthChecker, LoadBalancer
     lb = LoadBalancer("lb")
     hc = HealthChecker("hc", lb, interval=9e-10, timeout=SUBNS)
-    _run([lb, hc], [hc.start()], end=1.0)
+    _run([lb, hc], [hc.start()], end=2 * US)
+    return _st(hc)
 
 
-def probe_subns_autoscaler():
+def svc_subns_autoscaler():
+    _seed(78)
     from happysimulator.components.deployment import AutoScaler
-    lb, servers = _lb(1, 1, 0.1)
-    sc = AutoScaler("as", lb, lambda name: _server(name, 1, 0.1), evaluation_interval=SUBNS)
-    _run([lb, *servers, sc], [sc.start(), *_burst(lb, [0.0, 0.5])], end=1.0)
+    lb, servers = _lb(1, 1, US / 10)
+    sc = AutoScaler("as", lb, lambda name: _server(name, 1, US / 10), evaluation_interval=SUBNS)
+    _run([lb, *servers, sc], [sc.start(), *_burst(lb, [0.0, US], per=3)], end=3 * US)
+    return _st(sc)
 
 
-def probe_subns_canary():
-    return _canary([(0.5, T3)], SUBNS, rate=10, end=2.0)
+def svc_subns_canary():
+    _seed(79)
+    return _canary([(0.5, US), (1.0, US / 2)], SUBNS, rate=10)
 
 
-def probe_subns_outbox():
-    return _outbox(SUBNS, 2, 0.0, end=1.0)
+def svc_subns_outbox():
+    _seed(80)
+    return _outbox(SUBNS, 2, 0.0, times=(0.0, US / 10, US), end=3 * US)
 
 
-def probe_subns_idempotency_cleanup():
-    st, tgt = _idem(1.0, SUBNS, 0.1)
-    _run([st, tgt], _burst(st, [0.0, 0.5]), end=2.0)
+def svc_subns_idempotency_cleanup():
+    _seed(81)
+    st, tgt = _idem(US, SUBNS, US / 10)
+    _run([st, tgt], _burst(st, [0.0, US / 2], per=2), end=3 * US)
+    return _st(st)
 
 
-def probe_subns_fixed_window():
+def svc_subns_fixed_window():
+    _seed(82)
     from happysimulator.components.rate_limiter import FixedWindowPolicy
-    return _limited(FixedWindowPolicy(1, window_size=SUBNS), [0.0, 0.1], per=3, end=1.0)
+    return _limited(FixedWindowPolicy(1, window_size=SUBNS), [0.0, US / 10], per=3, end=10 * US)
 
 
-PROBES = {k: v for k, v in list(globals().items()) if k.startswith("probe_") and callable(v)}
-
-
-def run_probes():
-    """python -c "from harness.scenarios_svc import run_probes; print(run_probes())"  (with /verif:/repo on the path)"""
-    from harness.simrec import Recorder
-    rec = Recorder(want_log=False).install()
-    out = {}
-    try:
-        for name, fn in PROBES.items():
-            k = len(rec.sims)
-            fn()
-            out[name] = [(r.n, r.max_inst, r.spin and r.spin["target"]) for r in rec.sims[k:]]
-    finally:
-        rec.uninstall()
-    return out
+SCENARIOS = {k: v for k, v in list(globals().items()) if k.startswith("svc_") and callable(v)}
